@@ -31,3 +31,13 @@ def record(ex, name, value):
     n = sum(1 for k in ex.root.inputs if k.startswith('ext:' + name))
     ex.root.inputs['ext:%s#%d' % (name, n)] = value
     return value
+
+
+def call_contract(ex, qualname, args, kwargs=None):
+    """apply the contract of a repo function from inside an assumed external
+    (used to attach call-site obligations phrased over the caller's locals)"""
+    from .contracts import apply_contract
+    module, owner, node = ex.world.repo.find_function(qualname)
+    fn = VFunc(qualname, node, module, owner=owner)
+    callee = ex.world.contracts[qualname]
+    return apply_contract(ex, callee, fn, list(args), dict(kwargs or {}))
